@@ -26,14 +26,24 @@ and complete with respect to the listings (the paths whose entry differs
 between the last commit and now are exactly the paths named by the status).
 A failing sequence is delta-debugged to a minimal op list before it is reported.
 
-Mutants tried (scratch worktree; see the report):
- m1 DirStateWorkingTree.rename_one/_move: inventory updated, on-disk rename skipped for files
- m2 InventoryWorkingTree.remove: keep_files honoured only for files (directories deleted)
- m3 MutableGitIndexTree._unversion_path: children of a directory not unversioned
- m4 DirStateWorkingTree.unversion: only the named id, not its children
- m5 revert: added files deleted instead of left unversioned (transform keep_content)
- m6 git rename_one: index entry of the old path kept
- harmless: reordered independent statements in DirStateWorkingTree.move
+Known defects of the unchanged code found by this check (family slugs, each
+computed from the concrete failing step):
+ dirstate-add-below-unversioned-directory-of-basis  (bzr: add of a path whose parent directory was
+     removed from versioning but is still in the basis succeeds and corrupts the state)
+ mkdir-below-unversioned-directory-leaves-directory (bzr: mkdir raises NotVersionedError, directory left on disk)
+ git-rename-after-unversioned-source                (git: rename_one of a path that does not exist onto an
+     unversioned file "succeeds" and versions the file)
+ git-rename-detection-pairs-modified-file-with-added-copy (git: status reports a modified file also as renamed
+     to a new file with its old content; revert then versions `c.moved` and loses the added file)
+
+Mutants tried (scratch worktree, families above treated as known):
+ m2 InventoryWorkingTree._move_entry: inv.rename(..., entry.from_tail)             -> oracle (error not atomic / status)
+ m4 MutableGitIndexTree.rename_one: index entry of the old path kept               -> oracle (status vs listing) + T2
+ m5 transform._alter_files (revert): content of added files not kept               -> oracle (revert deleted files outside the basis)
+ m6 InventoryWorkingTree.remove: keep_files ignored for directories                -> T2 (minimal: ['remove:b:k'])
+ m1 DirStateWorkingTree.unversion children / m3 MutableGitIndexTree._unversion_path directory branch: NOT reached
+    by the operations generated here (remove() goes through apply_inventory_delta / per-file unversion) - not caught
+ harmless (stays clean): reordered comparison and reworded message in _move_entry
 """
 import os
 import shutil
@@ -157,6 +167,11 @@ class Real:
             for n in fs:
                 out.append((os.path.join(rel, n), "f"))
         return sorted(out)
+
+
+def _prefixes(p):
+    parts = p.split("/")
+    return ["/".join(parts[:k]) for k in range(1, len(parts))]
 
 
 def _s(x):
@@ -397,6 +412,16 @@ def run_real(fmt, ops=None, rng=None, length=0, gen=True):
                     if new_listing != (committed or [".|directory|-|F"]):
                         problems.append((where, "revert did not restore the versioned part: %r" % (
                             sorted(set(new_listing) ^ set(committed))[:4],), "revert-restore", None))
+                    # unversioned files and files that were only added stay on disk
+                    cb = {l.split("|")[0] for l in committed}
+                    verp = {l.split("|")[0]: l.split("|")[1] for l in listing}
+                    nd = {q for q, k in new_disk}
+                    lost = [q for q, k in disk if k == "f" and (q not in verp or q not in cb)
+                            and q not in nd and (q + ".moved") not in nd
+                            and not any(x in cb and x not in verp for x in _prefixes(q))]
+                    if lost:
+                        problems.append((where, "revert deleted files that are not part of the basis: %r" % (lost[:4],),
+                                         "revert-deletes-unversioned", None))
                     if ch and (committed or sb != ["~|.|T|FT|~|directory|~|F"]):
                         problems.append((where, "status not empty after revert: %r" % (sb[:3],), "revert-status", None))
                 if op[0] == "reopen" and (new_listing != listing or sb != prev_status):
